@@ -1037,10 +1037,13 @@ def _r09d(chk, repo, written_keys: Set[str]) -> None:
             chk.require(ip == lu[0], "R09d", c, f"RawFileSlice records source_idx={_fmt(ip)} for the text source[{_fmt(lu[0])}:{_fmt(lu[1])}]: the slice map points at a different place than the text it holds",
                         detail=f"placeholder: RawFileSlice.source_idx is the start of its text ({_fmt(lu[0])}:{_fmt(lu[1])})", construct=con)
             (tfs_pairs_loop if in_loop(c) else tfs_pairs_after).append(("raw", lu))
+            _R09I_RECORDS.append((c, lu, ctor_arg(c, rfs_fields, "slice_type"), st))
         elif resolves_to_class(repo, c, "TemplatedFileSlice"):
             n_rec += 1
             ss = ctor_arg(c, tfs_fields, "source_slice")
             ty = const(ctor_arg(c, tfs_fields, "slice_type"))
+            if not isinstance(ty, str):
+                ty = "computed-type"  # judged by R09i; here only the bounds matter
             if not (isinstance(ss, ast.Call) and call_name(ss) == "slice" and len(ss.args) >= 2):
                 unknown += 1
                 continue
@@ -1049,10 +1052,30 @@ def _r09d(chk, repo, written_keys: Set[str]) -> None:
                 unknown += 1
                 continue
             (tfs_pairs_loop if in_loop(c) else tfs_pairs_after).append((ty, lu))
+            _R09I_RECORDS.append((c, lu, ctor_arg(c, tfs_fields, "slice_type"), st))
     chk.count("R09d.slice_records", n_rec)
     chk.floor("R09d.slice_records", 4)
     want_lit = (PREV, frozenset({START}))
     want_par = (frozenset({START}), frozenset({END}))
+    # R09i: the records whose source bounds are the span of the match are 'templated', whatever the value
+    n_i = 0
+    for c, lu, t, st_ in _R09I_RECORDS:
+        if lu != want_par:
+            continue
+        n_i += 1
+        vals = [t]
+        if isinstance(t, ast.Name):
+            vals = [o.expr for o in origins(P.cfg, t, st_)] if hasattr(P, "cfg") else [t]
+        ok = bool(vals) and all(isinstance(v, ast.Constant) and v.value == "templated" for v in vals)
+        chk.require(
+            ok, "R09i", c,
+            f"the slice record of a matched placeholder gets the type {[short(v, 20) if isinstance(v, ast.AST) else v for v in vals]}: a placeholder recorded as 'literal' claims that the "
+            "rendered text equals the source text at that place (`1234` for `:uid`), and fixes are then allowed to edit it as if it were source",
+            detail="placeholder process: a matched parameter is a 'templated' slice",
+        )
+    del _R09I_RECORDS[:]
+    chk.count("R09i.match_slice_records", n_i)
+    chk.require(n_i >= 2, "R09i", loop, "the slice records of the matched placeholder (templated-file slice and raw slice over the span of the match) were not found", detail="placeholder process: match records found")
     want_tail = (PREV, frozenset({LEN}))
     for ty, lu in tfs_pairs_loop:
         want = want_lit if (ty == "literal" or (ty == "raw" and lu[0] == PREV)) else want_par
@@ -1125,6 +1148,9 @@ def _r09f(chk, repo) -> None:
     chk.floor("R09f.templater_classes", 4)
     if not n_store:
         chk.ok("R09f", "core templater classes", "no store to self outside __init__")
+
+
+_R09I_RECORDS: list = []
 
 
 def _r09h(chk, repo) -> None:
@@ -1241,6 +1267,7 @@ def run(chk) -> None:
     chk.rule("R09d", "placeholder process: output = source[PREV:START] + replacement per match + source[PREV:]; replacement is the context value or name of the matched/numbered parameter; slice records use the same bounds")
     chk.rule("R09e", "python templater: the same unmodified in_str feeds slice_file, the raw slicer, the render function and TemplatedFile.source_str; templated_str is slice_file's render result")
 
+    chk.rule("R09i", "a matched placeholder is recorded as template output, whatever its value: the slice records built for the span of a match (TemplatedFileSlice and RawFileSlice whose bounds are the match's span) carry the constant slice type 'templated'")
     chk.rule("R09h", "the templating context is layered default < config < override: RawTemplater.get_context puts self.default_context lowest, the section loaded from the config above it and self.override_context on top")
     _r09h(chk, repo)
     chk.rule("R09g", "the occurrence counter the python templater's slicer relies on (helpers.string.findall) reports every occurrence, overlapping ones included: after a hit at idx the search resumes at idx + 1")
